@@ -160,8 +160,9 @@ STRUCTS = {"PyOp": {"type": "String", "index": ("pyidx",)}}
 class Fn:
     """signature of a translated function, for calls"""
 
-    def __init__(self, name, params, ret, fuel, ptypes=None, orig_params=None, dropped=()):
+    def __init__(self, name, params, ret, fuel, ptypes=None, orig_params=None, dropped=(), defaults=None):
         self.name, self.params, self.ret, self.fuel, self.ptypes = name, params, ret, fuel, ptypes
+        self.defaults = defaults or {}      # parameter -> the constant its `=default` is
         self.orig_params = orig_params or list(params)
         self.dropped = set(dropped)
 
@@ -172,12 +173,14 @@ class Ctx:
         self.fns = fns          # python name -> Fn
         self.consts = consts    # module-level constant name -> (lean expr, type)
         self.fns_lean = set()   # lean names of translated methods
+        self.inits = {}         # lean name of a translated constructor -> (params, ptypes, fields, field types, fuel)
 
 
 class FnTr:
     def __init__(self, ctx, node, pname, lean_name, param_types, recursive, cache_step=False, self_fields=None,
-                 src="", gen=None, method_fields=None, oracles=None):
+                 src="", gen=None, method_fields=None, oracles=None, super_init=None):
         self.ctx = ctx
+        self.super_init = super_init or "checkpointSchedule_init"
         self.node = node
         self.pname = pname
         self.lean_name = lean_name
@@ -201,6 +204,9 @@ class FnTr:
                 self.vtypes.setdefault("self." + f2, "Int")
             elif f2 == "max_n":
                 self.vtypes.setdefault("self." + f2, ("opt", "Int"))
+        if self.super_init in ctx.inits:
+            for f2, t2 in ctx.inits[self.super_init][3].items():
+                self.vtypes.setdefault("self." + f2, t2)
         self.gen = gen or {}    # generator translation: {"online": bool, "passes": bool}
         self.local_fns = {}
         if self.gen:
@@ -424,6 +430,8 @@ class FnTr:
                 return t if isnum(t) else "Int"
             if f in ("min", "max", "len", "int"):
                 return "Int"
+            if f == "list" and len(e.args) == 1 and self.etype(e.args[0]) == ("list", ("struct", "PyOp")):
+                return ("list", ("struct", "PyOp"))
             if f == "bool":
                 return "Bool"
             if f == "set" and not e.args:
@@ -591,6 +599,9 @@ class FnTr:
         if isinstance(e, ast.Tuple):
             return "(" + ", ".join(self.expr(x) for x in e.elts) + ")"
         if isinstance(e, ast.List):
+            lt = self.etype(e)
+            if lt is not None and not isinstance(lt, str) and lt[0] == "list" and isnum(lt[1]) and lt[1] != "Int":
+                return "[" + ", ".join(self.num_as(x, lt[1]) for x in e.elts) + "]"
             return "[" + ", ".join(self.expr(x) for x in e.elts) + "]"
         if isinstance(e, ast.Call) and ast.unparse(e.func) == "np.zeros":
             shp = e.args[0] if e.args else None
@@ -656,6 +667,8 @@ class FnTr:
                 return "(%s %s %s)" % (f, self.expr(e.args[0], "num"), self.expr(e.args[1], "num"))
             if f == "len" and len(e.args) == 1:
                 return "(%s.length : Int)" % self.expr(e.args[0])
+            if f == "list" and len(e.args) == 1 and not e.keywords and self.etype(e.args[0]) == ("list", ("struct", "PyOp")):
+                return self.expr(e.args[0])     # list(Sequence): the flattened operation list itself
             if f == "set" and not e.args:
                 return "[]"
             if f == "bool" and len(e.args) == 1:
@@ -689,10 +702,16 @@ class FnTr:
                 ptys = (self.ctx.fns[f].ptypes if f in self.ctx.fns and self.ctx.fns[f].ptypes else {}) \
                     if f != self.pname else self.ptypes
                 def arg_as(a, pt):
+                    ta = self.etype(a)
+                    if pt is not None and not isinstance(pt, str) and pt[0] == "list" and ta is not None \
+                            and not isinstance(ta, str) and ta[0] == "tuple" and len(ta[1]) == 2 \
+                            and all(t2 == pt[1] for t2 in ta[1]):
+                        return "[%s.1, %s.2]" % (self.expr(a), self.expr(a))    # a pair passed where a sequence is read
                     if isnum(pt):
                         return self.num_as(a, pt)
                     if self.is_opt(pt):
-                        return self.expr(a) if self.is_opt(self.etype(a)) else "(some %s)" % self.expr(a)
+                        return self.expr(a) if (self.is_opt(self.etype(a)) or (isinstance(a, ast.Constant) and a.value is None)) \
+                        else "(some %s)" % self.expr(a)
                     return self.expr(a, "num")
                 if f == self.pname:
                     orig, dropped = self.orig_params, self.dropped
@@ -710,6 +729,10 @@ class FnTr:
                     if kw.arg not in params:
                         raise Unsupported("keyword %s" % kw.arg)
                     args[params.index(kw.arg)] = arg_as(kw.value, ptys.get(kw.arg))
+                dflt = self.ctx.fns[f].defaults if f != self.pname and f in self.ctx.fns else {}
+                for i, a in enumerate(args):
+                    if a is None and params[i] in dflt:
+                        args[i] = arg_as(dflt[params[i]], ptys.get(params[i]))
                 if any(a is None for a in args):
                     raise Unsupported("call of %s with defaulted arguments" % f)
                 return "(← %s %s%s)" % (lean, "fuel " if fuel else "", " ".join(args))
@@ -1072,6 +1095,39 @@ class FnTr:
             if isinstance(st, ast.Expr) and isinstance(st.value, ast.Call) and isinstance(st.value.func, ast.Attribute) \
                     and st.value.func.attr == "__init__" and isinstance(st.value.func.value, ast.Call) \
                     and isinstance(st.value.func.value.func, ast.Name) and st.value.func.value.func.id == "super":
+                if self.super_init != "checkpointSchedule_init":
+                    # the translated constructor of the base class: its fields become this object's fields
+                    if self.super_init not in self.ctx.inits:
+                        raise Unsupported("super().__init__ without a translated base constructor %s" % self.super_init)
+                    bparams, bptypes, bfields, bftypes, bfuel = self.ctx.inits[self.super_init]
+                    call = st.value
+                    if call.keywords or len(call.args) != len(bparams):
+                        raise Unsupported("super().__init__ with keywords / defaulted arguments")
+                    args = []
+                    for pn, a in zip(bparams, call.args):
+                        pt = bptypes[pn]
+                        if isnum(pt):
+                            args.append(self.num_as(a, pt))
+                        elif self.is_opt(pt):
+                            args.append(self.expr(a) if (self.is_opt(self.etype(a)) or
+                                                         (isinstance(a, ast.Constant) and a.value is None))
+                                        else "(some %s)" % self.expr(a, "num"))
+                        else:
+                            args.append(self.expr(a))
+                    if bfuel:
+                        self.uses_fuel = True
+                    tmp = "base_%d" % self.fresh()
+                    out.append("%slet %s := (← %s%s %s)" % (ind, tmp, self.super_init, " fuel" if bfuel else "", " ".join(args)))
+                    for i2, f2 in enumerate(bfields):
+                        k = "self." + f2
+                        self.vtypes[k] = bftypes[f2]
+                        pr = ".2" * i2 + (".1" if i2 < len(bfields) - 1 else "")
+                        if k in defined:
+                            out.append("%s%s := %s%s" % (ind, self.vn(k), tmp, pr))
+                        else:
+                            out.append("%slet mut %s : %s := %s%s" % (ind, self.vn(k), ty_str(self.vtypes[k]), tmp, pr))
+                            defined.add(k)
+                    continue
                 # CheckpointSchedule.__init__(self, max_n=None): the translated base constructor
                 if "checkpointSchedule_init" not in self.ctx.fns_lean:
                     raise Unsupported("super().__init__ without a translated base constructor")
@@ -1945,6 +2001,19 @@ def last_leaf_pattern(fn):
     return fn
 
 
+def const_defaults(node):
+    """{parameter: constant} for the parameters of `node` that have a constant default"""
+    pos = node.args.args
+    out = {}
+    for a, d in zip(pos[len(pos) - len(node.args.defaults):], node.args.defaults):
+        if isinstance(d, ast.Constant):
+            out[a.arg] = d
+    for a, d in zip(node.args.kwonlyargs, node.args.kw_defaults):
+        if isinstance(d, ast.Constant):
+            out[a.arg] = d
+    return out
+
+
 def find_def(tree, qual):
     parts = qual.split(".")
     body = tree.body
@@ -2035,6 +2104,8 @@ FUNCTIONS = [
 ENUMS = [("schedule.py", "StepType"), ("schedule.py", "StorageType")]
 
 ST = ("enum", "StorageType")
+REV_FIELDS = ["n", "r", "max_n", "exhausted", "snapshots_on_disk", "snapshots_in_ram", "schedule"]
+COSTS_T = {"uf": "Rat", "ub": "Rat", "wd": "Rat", "rd": "Rat"}
 # (file, qualified name, lean name, parameter types, self fields, fields whose new values the method returns)
 METHODS = [
     ("schedule.py", "CheckpointSchedule.__init__", "checkpointSchedule_init", {"max_n": ("opt", "Int")}, {},
@@ -2063,6 +2134,16 @@ METHODS = [
      {"allocate_snapshots": (["max_n", "snapshots_in_ram", "snapshots_on_disk", "trajectory"],
                              ("tuple", [("list", "Int"), ("list", ST)]),
                              "Int → Int → Int → String → M (List Int × List StorageType)")}),
+    ("hrevolve.py", "RevolveCheckpointSchedule.__init__", "revolveBase_init",
+     {"snapshots_on_disk": ("opt", "Int"), "schedule": ("list", ("struct", "PyOp"))}, {}, REV_FIELDS),
+    ("hrevolve.py", "HRevolve.__init__", "hrevolve_init", COSTS_T, {}, REV_FIELDS, None,
+     ("revolveBase_init", "RevolveCheckpointSchedule")),
+    ("hrevolve.py", "DiskRevolve.__init__", "diskRevolve_init", COSTS_T, {}, REV_FIELDS, None,
+     ("revolveBase_init", "RevolveCheckpointSchedule")),
+    ("hrevolve.py", "PeriodicDiskRevolve.__init__", "periodicDiskRevolve_init", COSTS_T, {}, REV_FIELDS, None,
+     ("revolveBase_init", "RevolveCheckpointSchedule")),
+    ("hrevolve.py", "Revolve.__init__", "revolve_init", COSTS_T, {}, REV_FIELDS, None,
+     ("revolveBase_init", "RevolveCheckpointSchedule")),
     ("schedule.py", "Forward.__len__", "forward_len", {}, {"n0": "Int", "n1": "Int"}, []),
     ("schedule.py", "Forward.__contains__", "forward_contains", {}, {"n0": "Int", "n1": "Int"}, []),
     ("schedule.py", "Reverse.__len__", "reverse_len", {}, {"n0": "Int", "n1": "Int"}, []),
@@ -2229,7 +2310,7 @@ def generate(repo):
             else:
                 (late_chunks if f == "hrevolve.py" else chunks).append(text)
                 ctx.fns[lean if lean != qual.split(".")[-1] and qual.split(".")[-1] in ctx.fns else qual.split(".")[-1]] = \
-                    Fn(lean, tr.params, tr.ret, fuel, dict(tr.ptypes), tr.orig_params, tr.dropped)
+                    Fn(lean, tr.params, tr.ret, fuel, dict(tr.ptypes), tr.orig_params, tr.dropped, const_defaults(node))
             status[lean] = "ok"
         except (Unsupported, SyntaxError, OSError, KeyError, IndexError, TypeError, AttributeError) as e:
             status[lean] = "untranslatable: %s: %s" % (type(e).__name__, e)
@@ -2245,15 +2326,24 @@ def generate(repo):
         for entry in METHODS:
             f, qual, lean, ptypes, fields, mfields = entry[:6]
             orc = entry[6] if len(entry) > 6 else None
+            sup = entry[7] if len(entry) > 7 else None
             try:
                 node = find_def(tree(f), qual)
                 if node.decorator_list:
                     raise Unsupported("decorated method")
+                if sup:
+                    cls = find_def(tree(f), qual.split(".")[0])
+                    bases = [ast.unparse(b) for b in cls.bases]
+                    if bases != [sup[1]]:
+                        raise Unsupported("base classes of %s changed: %s" % (qual.split(".")[0], bases))
                 tr = FnTr(ctx, node, qual, lean, ptypes, False, self_fields=fields, method_fields=mfields, oracles=orc,
-                          src="%s:%d-%d" % (f, node.lineno, node.end_lineno))
+                          src="%s:%d-%d" % (f, node.lineno, node.end_lineno), super_init=sup[0] if sup else None)
                 text, fuel = tr.emit()
                 chunks.append(text)
                 ctx.fns_lean.add(lean)
+                if qual.endswith(".__init__"):
+                    ctx.inits[lean] = (list(tr.params), dict(tr.ptypes), list(mfields),
+                                       {f2: tr.vtypes.get("self." + f2) for f2 in mfields}, fuel)
                 status[lean] = "ok"
             except (Unsupported, SyntaxError, OSError, KeyError, IndexError, TypeError, AttributeError) as e:
                 status[lean] = "untranslatable: %s: %s" % (type(e).__name__, e)
